@@ -17,7 +17,16 @@ def gen_stream(r):
     items = []; stream = []
     for _ in range(r.range(1, 8)):
         k = r.below(100)
-        if k < 55:
+        if k < 5:
+            # a packet filled to the brim: exactly 252..255 content bytes (what the library's own sender emits at capacity 255)
+            L = r.choice([252, 253, 254, 255, 255]); p = []
+            while len(p) < L:
+                rest = L - len(p)
+                n = rest - 4 if rest <= 64 else r.range(0, 56)
+                if rest > 64 and rest - (n + 4) < 4: n -= 4
+                p += flowgen.upmsg([], r.below(256), r.choice([0x82, 0x84, 0x85, 0x95, 0xC6]), [r.choice(SPECIAL) if r.chance(1, 8) else r.below(256) for _ in range(n)])
+            stream += frame(p); items.append("full%d" % len(p))
+        elif k < 55:
             msgs = [gen_built(r) for _ in range(r.range(1, 4))]
             p = [b for m in msgs for b in m]
             if len(p) > 250: p = msgs[0]
